@@ -84,6 +84,13 @@ func openIn(path string) (*bufio.Scanner, func()) {
 // crash or a hang the driver knows which item it was.
 var flushEach = os.Getenv("VH_FLUSH") == "1"
 
+// endRec marks the end of a result record written with Fprintf.
+func endRec(w *bufio.Writer) {
+	if flushEach {
+		w.Flush()
+	}
+}
+
 func writeJSON(w *bufio.Writer, v interface{}) {
 	b, err := json.Marshal(v)
 	if err != nil {
